@@ -295,8 +295,9 @@ fn main() {
             .map(|e| {
               let s = struct_text(e, &heap, &srcs);
               format!(
-                "{}:{}",
+                "{}:{}{}",
                 name_of(&heap, &e.location.module_reference),
+                if e.is_syntax_error() { "SYN" } else { "" },
                 if verbose { hex(s.as_bytes()) } else { tok(&s) }
               )
             })
